@@ -41,6 +41,80 @@ pub fn depth_all(shape: &Shape, v: &Value) -> u32 {
 	}
 }
 
+fn bulk_primitive(e: &Shape) -> bool {
+	matches!(e, Shape::UInt(_) | Shape::SInt(_) | Shape::F32 | Shape::F64)
+}
+
+/// Lower bound of the limit a value needs: the number of nested heap containers the decoder must
+/// recurse through. Containers that hold plain bytes / primitive numbers in bulk (strings, byte
+/// buffers, bit sequences, vectors/deques/heaps of integers or floats) do not recurse into anything
+/// and may legitimately not count; empty collections are not counted either.
+pub fn depth_min(shape: &Shape, v: &Value) -> u32 {
+	match (shape, v) {
+		(Shape::Seq(k, e), Value::List(xs)) => {
+			if xs.is_empty() || (bulk_primitive(e) && matches!(k, SeqKind::Vec | SeqKind::Deque | SeqKind::Heap)) {
+				0
+			} else {
+				1 + xs.iter().map(|x| depth_min(e, x)).max().unwrap_or(0)
+			}
+		},
+		(Shape::Seq(..), Value::Rep(n)) => (*n > 0) as u32,
+		(Shape::Map(k, val), Value::Map(xs)) =>
+			if xs.is_empty() {
+				0
+			} else {
+				1 + xs.iter().map(|(a, c)| depth_min(k, a).max(depth_min(val, c))).max().unwrap_or(0)
+			},
+		(Shape::Wrap(WrapKind::Cow, e), x) => depth_min(e, x),
+		(Shape::Wrap(_, e), x) => 1 + depth_min(e, x),
+		(Shape::Str, _) | (Shape::Bytes, _) | (Shape::Bits { .. }, _) => 0,
+		(Shape::Option(e), Value::Some_(x)) => depth_min(e, x),
+		(Shape::Result(t, _), Value::Ok_(x)) => depth_min(t, x),
+		(Shape::Result(_, e), Value::Err_(x)) => depth_min(e, x),
+		(Shape::Array(_, e), Value::List(xs)) => xs.iter().map(|x| depth_min(e, x)).max().unwrap_or(0),
+		(Shape::Tuple(es), Value::List(xs)) => es.iter().zip(xs).map(|(e, x)| depth_min(e, x)).max().unwrap_or(0),
+		(Shape::Range(e), Value::List(xs)) | (Shape::RangeIncl(e), Value::List(xs)) =>
+			xs.iter().map(|x| depth_min(e, x)).max().unwrap_or(0),
+		(Shape::Struct(fs), Value::List(xs)) =>
+			fs.iter().zip(xs).filter(|(f, _)| !f.skip).map(|(f, x)| depth_min(&f.shape, x)).max().unwrap_or(0),
+		(Shape::Enum(vs), Value::Variant(i, xs)) => vs[*i]
+			.fields
+			.iter()
+			.zip(xs)
+			.filter(|(f, _)| !f.skip)
+			.map(|(f, x)| depth_min(&f.shape, x))
+			.max()
+			.unwrap_or(0),
+		_ => 0,
+	}
+}
+
+/// True only if it is certain that the value holds no heap data at all (conservative: `false`
+/// whenever the in-memory size of something behind a pointer is not known from the shape).
+pub fn holds_no_heap(shape: &Shape, v: &Value) -> bool {
+	match (shape, v) {
+		(Shape::Seq(..), Value::List(xs)) => xs.is_empty(),
+		(Shape::Seq(..), Value::Rep(n)) => *n == 0,
+		(Shape::Map(..), Value::Map(xs)) => xs.is_empty(),
+		(Shape::Str, Value::Str(s)) => s.is_empty(),
+		(Shape::Bytes, Value::Bytes(b)) => b.is_empty(),
+		(Shape::Bits { .. }, Value::Bits(b)) => b.is_empty(),
+		(Shape::Wrap(WrapKind::Cow, e), x) => holds_no_heap(e, x),
+		(Shape::Wrap(_, e), _) => matches!(**e, Shape::Unit | Shape::Phantom | Shape::CompactUnit | Shape::Array(0, _)),
+		(Shape::Option(_), Value::None_) => true,
+		(Shape::Option(e), Value::Some_(x)) => holds_no_heap(e, x),
+		(Shape::Result(t, _), Value::Ok_(x)) => holds_no_heap(t, x),
+		(Shape::Result(_, e), Value::Err_(x)) => holds_no_heap(e, x),
+		(Shape::Array(_, e), Value::List(xs)) => xs.iter().all(|x| holds_no_heap(e, x)),
+		(Shape::Array(..), Value::Rep(_)) => true,
+		(Shape::Tuple(es), Value::List(xs)) => es.iter().zip(xs).all(|(e, x)| holds_no_heap(e, x)),
+		(Shape::Range(e), Value::List(xs)) | (Shape::RangeIncl(e), Value::List(xs)) => xs.iter().all(|x| holds_no_heap(e, x)),
+		(Shape::Struct(fs), Value::List(xs)) => fs.iter().zip(xs).all(|(f, x)| f.skip || holds_no_heap(&f.shape, x)),
+		(Shape::Enum(vs), Value::Variant(i, xs)) => vs[*i].fields.iter().zip(xs).all(|(f, x)| f.skip || holds_no_heap(&f.shape, x)),
+		(s, _) => !may_hold_heap(s),
+	}
+}
+
 /// True if values of the shape can hold heap data at all.
 pub fn may_hold_heap(shape: &Shape) -> bool {
 	match shape {
